@@ -86,7 +86,8 @@ pub struct Case {
     pub out: Outcome,
     pub reply_ack: bool,
     pub need_reply: bool,
-    pub after_success: bool,
+    /// a call made before the observed one: (operation, whether its handler fails)
+    pub prefix: Option<(FeOp, bool)>,
     /// negotiation order: 0 = GET/SET_FEATURES then GET/SET_PROTOCOL_FEATURES; 1 = protocol
     /// features negotiated before any SET_FEATURES (QEMU's order); 2 = SET_FEATURES without bit 30
     pub nego: u8,
@@ -94,7 +95,7 @@ pub struct Case {
 
 impl Case {
     fn json(&self) -> Value {
-        json!({"check": "C03", "op": format!("{:?}", self.op), "outcome": format!("{:?}", self.out), "reply_ack": self.reply_ack, "need_reply": self.need_reply, "after_success": self.after_success, "nego": self.nego})
+        json!({"check": "C03", "op": format!("{:?}", self.op), "outcome": format!("{:?}", self.out), "reply_ack": self.reply_ack, "need_reply": self.need_reply, "prefix": self.prefix.as_ref().map(|p| format!("{:?}", p.0)), "prefix_fails": self.prefix.as_ref().map(|p| p.1), "nego": self.nego})
     }
 }
 
@@ -136,16 +137,37 @@ pub fn run_case(c: &Case, rep: &mut Report) {
         return;
     }
     p.fe.set_hdr_flags(if c.need_reply { VhostUserHeaderFlag::NEED_REPLY } else { VhostUserHeaderFlag::empty() });
-    if c.after_success {
-        if let Err(e) = p.fe.set_vring_num(0, 64) {
-            let (hung, _) = p.hangs();
-            rep.evaluations += 1;
-            rep.violation(&format!("C03:set_vring_num:handler_ok:{}", if hung { "indefinite-wait" } else { "error-on-success" }), &format!("acknowledged call after negotiation order {} (reply_ack={}, need_reply={}) failed although the handler succeeded: {e:?}", c.nego, c.reply_ack, c.need_reply), c.json());
+    let mut session_ended = false;
+    if let Some((pop, pfails)) = &c.prefix {
+        {
+            let mut r = p.server.rec.lock().unwrap();
+            if *pfails {
+                r.script.fail.insert(pop.name());
+            }
+        }
+        let pres = invoke(&mut p.fe, pop, &res);
+        let (hung, _) = p.hangs();
+        let pawaited = pop.has_reply() || (c.reply_ack && c.need_reply);
+        rep.evaluations += 1;
+        let bad = if hung {
+            Some("indefinite-wait")
+        } else if !*pfails && pres.is_err() {
+            Some("error-on-success")
+        } else if *pfails && pawaited && pres.is_ok() {
+            Some("fabricated-success")
+        } else {
+            None
+        };
+        if let Some(kind) = bad {
+            rep.violation(&format!("C03:{}:{}:{kind}", pop.name(), if *pfails { "handler_err" } else { "handler_ok" }), &format!("call {pop:?} made after negotiation order {} (reply_ack={}, need_reply={}, handler fails={pfails}) returned {pres:?}", c.nego, c.reply_ack, c.need_reply), c.json());
             drop(p);
             coop::disable();
             return;
         }
         p.server.drain();
+        p.server.rec.lock().unwrap().script.fail.remove(pop.name());
+        // a failed request ends the session (the server stops serving, as the daemon thread does)
+        session_ended = !p.server.alive.get();
     }
     let _ = p.hangs();
     let script = {
@@ -181,6 +203,24 @@ pub fn run_case(c: &Case, rep: &mut Report) {
     }
     if p.server.panicked.get() {
         rep.violation(&sig("server-panic"), "backend server panicked", c.json());
+    }
+    if session_ended {
+        // the connection was closed after the failed prefix call: the observed call cannot be served.
+        // It must say so when it awaits anything, and must never wait forever (checked above).
+        match &result {
+            Ok(v) if awaited => {
+                rep.outcome("fabricated-success-on-closed-session");
+                rep.violation(&sig("fabricated-success-on-closed-session"), &format!("{:?} on a connection the backend closed after a failed request returned Ok({v:?})", c.op), c.json());
+            }
+            Ok(_) => rep.outcome("unawaited-on-closed-session"),
+            Err(_) => {
+                rep.outcome("closed-session-reported");
+                rep.nontrivial += 1;
+            }
+        }
+        drop(p);
+        coop::disable();
+        return;
     }
     match (&c.out, &result) {
         (Outcome::Ok(_), Ok(v)) => {
@@ -225,8 +265,23 @@ fn ops() -> Vec<FeOp> {
     v
 }
 
+/// Calls made before the observed one: none, and every operation with a succeeding and with a
+/// failing handler (quick: a reply-bearing and an acknowledged one).
+fn prefixes(thorough: bool) -> Vec<Option<(FeOp, bool)>> {
+    let mut v: Vec<Option<(FeOp, bool)>> = vec![None];
+    let base: Vec<FeOp> = if thorough { ops() } else { vec![FeOp::SetVringNum(0, 64), FeOp::GetQueueNum, FeOp::GetConfig(0x100, 8, 0)] };
+    for o in base {
+        v.push(Some((o.clone(), false)));
+        if !matches!(o, FeOp::SetBackendReqFd) {
+            v.push(Some((o, true)));
+        }
+    }
+    v
+}
+
 pub fn run(rep: &mut Report) {
     let mut n = 0u64;
+    let prefixes = prefixes(rep.is_thorough());
     for op in ops() {
         // GET_CONFIG with a payload that would not fit the 4096-byte message bound is refused
         // locally; keep the largest accepted window
@@ -243,13 +298,20 @@ pub fn run(rep: &mut Report) {
         for out in outs {
             for reply_ack in [false, true] {
                 for need_reply in [false, true] {
-                    for (after_success, nego) in [(false, 0u8), (true, 0), (false, 1), (true, 1), (false, 2)] {
-                        // without bit 30 acknowledged the frontend refuses ring enabling locally
-                        if nego != 0 && matches!(op, FeOp::SetVringEnable(..)) {
+                    for (pi, nego) in prefixes.iter().flat_map(|p| [0u8, 1, 2].into_iter().map(move |n| (p, n))) {
+                        // other negotiation orders: only without a prefix or with the basic one
+                        if nego != 0 && !matches!(pi, None | Some((FeOp::SetVringNum(..), false))) {
                             continue;
                         }
-                        let c = Case { op: op.clone(), out: out.clone(), reply_ack, need_reply, after_success, nego };
-                        if n % 97 == 0 {
+                        if nego == 2 && pi.is_some() {
+                            continue;
+                        }
+                        // without bit 30 acknowledged the frontend refuses ring enabling locally
+                        if nego != 0 && (matches!(op, FeOp::SetVringEnable(..)) || matches!(pi, Some((FeOp::SetVringEnable(..), _)))) {
+                            continue;
+                        }
+                        let c = Case { op: op.clone(), out: out.clone(), reply_ack, need_reply, prefix: pi.clone(), nego };
+                        if n % 997 == 0 {
                             rep.sample(c.json());
                         }
                         n += 1;
@@ -261,7 +323,7 @@ pub fn run(rep: &mut Report) {
     }
     rep.states = rep.outcomes.len() as u64;
     rep.exhaustive = true;
-    rep.rule = "every reply-bearing and every acknowledged frontend operation x scripted handler outcome (success values incl. 0/max patterns, with/without returned file, Err, wrong-length config data) x REPLY_ACK negotiated or not x NEED_REPLY on/off x first call / after a successful call; non-trivial = the outcome was observable at the caller (value delivered or failure reported)".into();
+    rep.rule = "every reply-bearing and every acknowledged frontend operation x scripted handler outcome (success values incl. 0/max patterns, with/without returned file, Err, wrong-length config data) x REPLY_ACK negotiated or not x NEED_REPLY on/off x position {first call, after a succeeding call, after a failing call: a reply-bearing, an acknowledged and a config operation at quick, every operation at thorough} x three negotiation orders; after a failed request the session is closed and the next call must report that instead of waiting or succeeding; non-trivial = the outcome was observable at the caller (value delivered or failure reported)".into();
     rep.assumptions.push("server side behaves like the daemon thread: serves while handle_request returns Ok, shuts the connection down on Err".into());
 }
 
@@ -280,12 +342,13 @@ pub fn replay(case: &Value, rep: &mut Report) {
             if format!("{out:?}") != wout {
                 continue;
             }
+            let prefix = case["prefix"].as_str().and_then(|w| ops().into_iter().chain([FeOp::SetVringNum(0, 64), FeOp::GetQueueNum]).find(|o| format!("{o:?}") == w)).map(|o| (o, case["prefix_fails"].as_bool().unwrap_or(false)));
             let c = Case {
                 op: op.clone(),
                 out,
                 reply_ack: case["reply_ack"].as_bool().unwrap_or(false),
                 need_reply: case["need_reply"].as_bool().unwrap_or(false),
-                after_success: case["after_success"].as_bool().unwrap_or(false),
+                prefix,
                 nego: case["nego"].as_u64().unwrap_or(0) as u8,
             };
             println!("replaying {:?}", c);
